@@ -52,7 +52,8 @@ package main
 //@ ensures[C20] result != nil
 
 //@ func (*eventwriter).write
-//@ modifies *
+//@ trusted thin: assumed to consume the pending field name and annotations and nothing else of the event writer (the encoder it hands the event to is not under contract)
+//@ modifies e.fieldname, e.annotations
 
 //@ func (*eventwriter).BeginStruct
 //@ split returns
